@@ -35,6 +35,10 @@ class Op(flow.Actor):
     def apply(self, *args):
         _log('exec', self.name)
         args = tuple(a for a in args if a is not None)  # the head gets nothing (dask) or None (pyfunc)
+        if f"('POISON', '{self.name}')" in repr(args):  # an injected in-pipeline failure aimed at this node
+            import forml  # pylint: disable=import-outside-toplevel
+
+            raise forml.InvalidError(f'poisoned input at {self.name}')
         if self.function is not None:
             args = tuple(self.function(a) for a in args)
         if self.szout == 1:
